@@ -12,7 +12,7 @@ def one(name):
     try:
         if sh(f"git -C {wt} apply {d}/patch.diff").returncode: return name, "NOAPPLY", {}
         os.makedirs(vd); shutil.copy(f"{V}/known_findings.json", vd)
-        env = dict(os.environ, GOFLAGS="-mod=mod", GOPROXY="off", GOSUMDB="off", GOTOOLCHAIN="local", GOMAXPROCS="4")
+        env = dict(os.environ, GOFLAGS="-mod=mod", GOPROXY="off", GOSUMDB="off", GOTOOLCHAIN="local", GOMAXPROCS=os.environ.get("PEG_GOMAXPROCS", "4"))
         out = sh(f"{V}/bin/pegcheck -repo {wt} -verif {vd} -property all", env=env).stdout
         res = {}; why = {}
         cur = None
@@ -34,7 +34,7 @@ def main():
     if len(sys.argv) > 1: names = [s for s in names if s in sys.argv[1:]]
     results = {}
     if len(sys.argv) > 1 and os.path.exists(f"{V}/benign/RESULTS.json"): results = json.load(open(f"{V}/benign/RESULTS.json"))
-    with cf.ThreadPoolExecutor(max_workers=4) as ex:
+    with cf.ThreadPoolExecutor(max_workers=int(os.environ.get("WORKERS", "4"))) as ex:
         for name, status, fired in ex.map(one, names):
             results[name] = dict(status=status, false_alarms=fired)
             print(name, status, "SILENT" if not fired else "FALSE-ALARM " + json.dumps(fired), flush=True)
